@@ -341,6 +341,10 @@ def _num_operand(draw, ctx, depth, kind, symbolic, prev_op, base_positive_litera
                                                                           "0.1428571429", "0.7071067812", "1.0000000001", "2.9999999999"]))))
         if not symbolic and draw(st.integers(0, 11)) == 0:
             return A.Operand(signs, draw(num_float(moderate=False)))  # exponents up to e+-30
+        if not symbolic and draw(st.integers(0, 14)) == 0:
+            # decimal approximations of multiples of pi (a "pretty printer" might want to write them as k*pi/d)
+            return A.Operand(signs, A.Num("float", draw(st.sampled_from(["1.0471975512", "3.14159265", "0.785398163397", "6.2831853072",
+                                                                          "1.5707963267948966", "2.0943951023931953", "0.5235987756", "4.71238898"]))))
         return A.Operand(signs, draw(num_float()))
     if k == "complex":
         if draw(st.integers(0, 5)) == 0:
@@ -829,6 +833,17 @@ def script(draw, cfg=Cfg()):
         if cfg.loops:
             kinds.append("loop")
         k = draw(st.sampled_from(kinds))
+        plain_arrays = sorted(n_ for n_, (t_, r_, c_, sy_) in ctx.arrays.items() if not sy_ and n_ not in ctx.frozen
+                              and not (n_[0] == "p" and n_[1:].isdigit()))
+        if cfg.arrays and plain_arrays and draw(st.integers(0, 11)) == 0:
+            # read an element, declare the array again under the same name, read an element again
+            nm_ = draw(st.sampled_from(plain_arrays))
+            zero_ = F1(A.Num("int", "0"))
+            items.append(A.Stmt(draw(op_name()), A.Args([F1(draw(index_of(ctx, nm_)))], [], False), [zero_], "", ""))
+            _forget(ctx, nm_)
+            items.append(draw(array_decl(ctx, name=nm_)))
+            items.append(A.Stmt(draw(op_name()), A.Args([F1(draw(index_of(ctx, nm_)))], [["k", F1(draw(index_of(ctx, nm_)))]], False), [zero_], "", ""))
+            continue
         arg_sym = symbolic
         if cfg.regs and (not cfg.params or draw(st.booleans())):
             arg_sym = "regs"
